@@ -29,6 +29,9 @@ fn console_vxw_c01() {
         ("POST", "/machine/upload?x=1", ReqBody::Len(b"0123456789".to_vec())),
         ("GET", "/machine/../secret?comp=goalstate", ReqBody::None),
         ("PUT", "/machine/..", ReqBody::Chunked(b"abcdefgh".to_vec(), vec![3])),
+        // the two signature-exempt uploads (any letter case): exempt from SIGNING, not from authorization
+        ("PUT", "/vmAgentLog", ReqBody::Len(b"log line".to_vec())),
+        ("POST", "/MACHINE/?comp=TelemetryData", ReqBody::Len(b"<t/>".to_vec())),
     ];
     // None = no rule set received for the endpoints
     let mut configs: Vec<Option<(&str, &str, u8)>> = vec![None];
@@ -67,7 +70,10 @@ fn console_vxw_c01() {
                     let traversal = target.split('?').next().unwrap().contains("..");
                     let rules_apply = matches!(*ep, "wireserver" | "hostga" | "imds");
                     let builtin_refusal = *ep == "self" || (matches!(*ep, "wireserver" | "hostga") && !elevated);
-                    let enforced_denial = rules_apply && matches!(cfg, Some(("enforce", da, kind)) if !vx_rules_allow(da, *kind));
+                    // the rule sets of vx_rules speak about paths under /machine: for a request outside it (PUT /vmAgentLog) the privilege
+                    // never matches and the default access decides
+                    let under_machine = target.to_lowercase().starts_with("/machine");
+                    let enforced_denial = rules_apply && matches!(cfg, Some(("enforce", da, kind)) if if under_machine || *kind == 3 { !vx_rules_allow(da, *kind) } else { *da != "allow" });
                     check(&mut n,
                         serde_json::json!({"attributed": true, "elevated": elevated, "destination": format!("{}:{}", ip, port), "rules": cfg.map(|(m, d, k)| format!("{}/{}/kind{}", m, d, k)), "request": format!("{} {}", method, target), "body_bytes": body.bytes().len()}),
                         &[(traversal, 404), (builtin_refusal || enforced_denial, 403)], &r, bytes, &reqs);
